@@ -1,6 +1,6 @@
 \* C07 negative: reset moved before use (expected: violation)
 CONSTANTS
-  Requests <- RequestsConc
+  Requests <- RequestsNeg
   ResetFields <- AllSix
   ResetEarly = TRUE
   CacheKey = "full"
